@@ -237,7 +237,7 @@ def check(ctx: Ctx) -> None:
             if r.outcome == "recurse":
                 recursed.add(k)
         it = r.__dict__.get("iter_value")
-        ctx.check(isinstance(it, SObj) and it.name == "x", "C14.flatten", "flatten iterates its argument forward", wf,
+        ctx.check(isinstance(it, SObj) and it is r.__dict__.get("arg"), "C14.flatten", "flatten iterates its argument forward", wf,
                   f"iterates {short(it)}", "flatten does not iterate its argument directly (order may change)")
     # ---- .5 acceptance subset of is_tag_child; stored elements satisfy is_tag_node -----------------------------------------
     accepted = kept | converted | dropped | recursed
